@@ -42,7 +42,7 @@ TIERS = {
 }
 
 OBSERVE_OPS = ["touch", "contains", "keys", "glyphorder", "glyphset", "bestcmap", "tabledata", "save", "savexml", "deepcopy", "revmap", "ensure_table"]
-EDIT_OPS = ["name", "rev", "os2", "hmtx", "vmtx", "headflags", "cmap", "glyfshift", "deltable", "opaque", "reorder", "scale", "subset", "instantiate", "cffwidth", "gposvalue"]
+EDIT_OPS = ["name", "rev", "os2", "hmtx", "vmtx", "headflags", "cmap", "glyfshift", "compbase", "deltable", "opaque", "reorder", "scale", "subset", "instantiate", "cffwidth", "gposvalue"]
 BIG_EDITS = ("reorder", "scale", "subset", "instantiate")
 
 
@@ -508,6 +508,24 @@ def apply_edit(font, name, a):
                 if gl.numberOfContours > 0:
                     gl.coordinates.translate((1 + k % 5, -(k % 3)))
                     break
+        return font
+    if name == "compbase":
+        # moves the outline of a simple glyph that composites use as a component; the glyph is found by the
+        # independent glyf reader in the file the font was opened from, so that no composite is expanded by
+        # the search (their bounding boxes must follow anyway)
+        if "glyf" in font and font.reader is not None and not font.isLoaded("glyf"):
+            from oracles import glyf as oglyf
+
+            try:
+                tabs = {t: font.reader[t] for t in ("head", "maxp", "loca", "glyf")}
+                glyphs = oglyf.parse_glyphs(tabs)[3]
+            except Exception:
+                glyphs = []
+            cands = sorted({c["gid"] for g in glyphs if g and g["nc"] < 0 for c in g["comps"] if c["gid"] < len(glyphs) and glyphs[c["gid"]] and glyphs[c["gid"]]["nc"] > 0})
+            if cands:
+                gl = font["glyf"][font.getGlyphName(_sel(cands, k))]
+                if gl.numberOfContours > 0:
+                    gl.coordinates.translate((37 + k % 50, 11 + k % 7))
         return font
     if name == "deltable":
         cand = [t for t in _tags(font) if t not in ("head", "maxp", "hhea", "hmtx", "glyf", "loca", "CFF ", "CFF2", "post", "cmap", "name", "OS/2", "fvar", "gvar", "vhea", "vmtx")]
